@@ -8,6 +8,7 @@ import (
 	"reflect"
 	"runtime"
 	"runtime/debug"
+	"sync/atomic"
 )
 
 // A Program is Go code that has been parsed and compiled.
@@ -143,16 +144,29 @@ func (interp *Interpreter) Execute(p *Program) (res reflect.Value, err error) {
 
 // execute executes p in the run id.
 func (interp *Interpreter) execute(p *Program, id uint64) (res reflect.Value, err error) {
-	interp.startRun(id)
+	defer interp.startRun(id)()
 	return interp.executeProg(p)
 }
 
 // startRun marks the global frame as belonging to a new evaluation, in the run id.
-func (interp *Interpreter) startRun(id uint64) {
+// It returns the function to call at the end of the evaluation.
+func (interp *Interpreter) startRun(id uint64) func() {
+	atomic.AddInt32(&interp.active, 1)
 	interp.frame.setrunid(id)
 	interp.frame.mutex.Lock()
 	interp.frame.run = &runState{}
 	interp.frame.mutex.Unlock()
+	return func() { atomic.AddInt32(&interp.active, -1) }
+}
+
+// callID returns the run id for a call entering the interpreter through a function
+// wrapper: the one of the evaluation in progress, so that the call stops if this
+// evaluation is cancelled, or the current one if the interpreter is idle.
+func (interp *Interpreter) callID() uint64 {
+	if atomic.LoadInt32(&interp.active) > 0 {
+		return interp.frame.runid()
+	}
+	return interp.runid()
 }
 
 // executeProg executes p in the evaluation started by startRun.
